@@ -202,6 +202,28 @@ def _flows(fnode, var, expr):
     return False
 
 
+def rule_exact(ctx, rid='C05.exact'):
+    ctx.rule(rid, 'the time under which a task is queued is passed through unmodified: queue insertions in the clocks take a '
+                          'parameter, a sum of scheduled time and delta, or a beats<->seconds conversion - never a rounded, truncated or '
+                          'otherwise transformed value (the queued time comes back as the task\'s logical time and as the base of the next '
+                          'reschedule, so any rounding accumulates)')
+    m = ctx.repo.module('sc3.base.clock')
+    n = 0
+    allowed_calls = {'beats2secs', 'secs2beats'}
+    for fi in m.functions.values():
+        for c in U.calls(fi.node):
+            if U.method_name(c) == 'add' and isinstance(c.func, ast.Attribute) and len(c.args) == 2 and \
+                    (norm(c.func.value).endswith('queue') or norm(c.func.value) in ('scheduler', 'self.scheduler')):
+                n += 1
+                t = c.args[0]
+                bad = [norm(x) for x in ast.walk(t) if isinstance(x, ast.Call) and U.method_name(x) not in allowed_calls]
+                badop = [norm(x) for x in ast.walk(t) if isinstance(x, ast.BinOp) and not isinstance(x.op, (ast.Add,))]
+                ctx.ob(rid, f'{fi.fq}:{norm(c)[:60]}', not bad and not badop,
+                       f'queued time {norm(t)} is transformed by {bad + badop}: logical time in NRT (and reschedule bases) drift away from '
+                       f'start + sum of deltas', c, m)
+    ctx.require(n >= 6, rid, f'only {n} queue insertions found in the clocks')
+
+
 def rule_sched(ctx):
     ctx.rule('C05.sched', 'every sched() branch queues current-thread logical time + delta; sched_abs queues the given '
                           'time; AppClock RT (drifting scheduler) is the documented exception')
@@ -327,6 +349,7 @@ def rule_awake(ctx):
 def run(ctx):
     rule_src(ctx)
     rule_taint(ctx)
+    rule_exact(ctx)
     rule_sched(ctx)
     rule_inherit(ctx)
     rule_awake(ctx)
@@ -368,6 +391,8 @@ MUTANTS = [
     dict(rule='C05.sched', name='(fix reverted) AppClock NRT absolute delta', file='sc3/base/clock.py',
          old="            ClockTask(seconds, cls, item, _libsc3.main._clock_scheduler)\n        else:\n            with cls._sched_lock:",
          new="            ClockTask(delta, cls, item, _libsc3.main._clock_scheduler)\n        else:\n            with cls._sched_lock:"),
+    dict(rule='C05.exact', name='NRT queue rounds the time', file='sc3/base/clock.py',
+         old="        self.queue.add(time, clock_task)", new="        self.queue.add(round(time, 9), clock_task)"),
 ]
 
 REPAIRS = []
